@@ -132,7 +132,7 @@ CLAIMS.update({
         text=('Theorems over a symbolic AES-GCM (seal/open with the laws of an authenticated cipher as explicit hypotheses): C17_wiring / C17_option_wiring (for every DSN encrypt / '
               'encrypt_key / environment key and every option key: if encryption is requested, Open fails or the handle encrypts under a key of 16/24/32 bytes — never silently off), '
               'C17_files (what is written is nonce||seal(key, nonce, value)), C17_roundtrip, C17_tamper (whatever byte string get accepts is exactly nonce||seal(key, nonce, v) for '
-              'the value v returned: any altered, truncated or extended file is an error, never data), C17_short_file_rejected, C17_wrong_key, C17_distinct. The run re-derives the '
+              'the value v returned: any altered, truncated or extended file is an error, never data), C17_short_file_rejected, C17_wrong_key, C17_moved_file (the key an entry is stored under is additional authenticated data: a file written for one key never opens under the name of another; fix F36), C17_distinct. The run re-derives the '
               'real backend\'s files with an independent AES-GCM computation, scans them for plaintext, applies every single-byte change and truncation, and compares a grid of '
               'configurations with the extracted wiring model.'),
         note=COMMON_NOTE + ' That AES-GCM is an authenticated cipher hiding its plaintext, and that crypto/rand nonces do not repeat, are cryptographic assumptions (hypotheses of the theorems): partial in that sense.'),
